@@ -27,7 +27,9 @@ HIER = {"classes": [
     {"bases": [], "abc": True, "virt": [6]}, {"bases": [4], "marks": ["mB"]},
 ]}
 ATOMS = [["cls", f"K{i}"] for i in range(7)] + [["obj"], ["cls", "int"], ["cls", "bool"], ["cls", "str"],
-                                                  ["cls", "Number"], ["cls", "PA"], ["cls", "Sequence"]]
+                                                  ["cls", "Number"], ["cls", "PA"], ["cls", "Sequence"],
+                                                  # pairs of distinct types that are subclasses of each other
+                                                  ["cls", "PA2"], ["cls", "PLen"], ["cls", "Sized"]]
 SMALL = [["cls", "K0"], ["cls", "K1"], ["cls", "K2"], ["cls", "K3"], ["cls", "K4"], ["cls", "int"], ["obj"],
          ["cls", "str"]]
 
